@@ -26,6 +26,7 @@ Known finding K4: with a READ fault on the restart path the owner hits `todo!()`
 -/
 import Tramp.Proofs.SysPanic
 import Tramp.Proofs.SysOnce
+import Tramp.Proofs.SysMeasure
 import Tramp.Props.Sys
 import Tramp.Props.C18
 import Tramp.Props.C12
@@ -156,6 +157,152 @@ theorem c06_owner_progress (c : Cfg) (s : SState) (e : PEntry) (o : Owner) (hact
     intro hd; simp [sstep, hact, hpc, hd]
   | gotReady => exact Or.inr (Or.inr (Or.inr (Or.inr (Or.inr (Or.inl (by simp [sstep, hact, hpc]))))))
   | gotParams mf exp => exact Or.inr (Or.inr (Or.inr (Or.inr (Or.inr (Or.inr (by simp [sstep, hact, hpc]))))))
+
+/-- measure of the live lifecycle (nothing live: the minimum) -/
+def ownerMeas (s : SState) : Nat × Nat :=
+  match s.active with
+  | some (_, o) => o.pc.meas
+  | none => (0, 0)
+
+/-- the steps the owner task itself takes -/
+def SAct.isOwnerStep : SAct → Bool
+  | .deliver .owner _ => true
+  | .timerFire | .takeFail | .takeReady | .readParams | .readHeight => true
+  | _ => false
+
+theorem ofact_matches {s : SState} {pc : OPc} {q : SReq} {r : SReply} (h : OFact s pc (q, r)) :
+    ∀ pq, q = .prov pq → ∃ pr, r = .prov pr := by
+  intro pq hq; subst hq
+  cases r with
+  | prov pr => exact ⟨pr, rfl⟩
+  | listed cell => simp [OFact] at h
+  | listErr => simp [OFact] at h
+  | written g => simp [OFact] at h
+  | writeErr => simp [OFact] at h
+
+/-- No livelock: from every reachable state, every step of the owner task — consuming a reply, a
+    `select!` branch, reading the parameters or the height — ends the lifecycle (all its HTLCs
+    answered, or the K-finding panic which needs a read fault and is excluded by `c06_no_panic`) or
+    strictly decreases the well-founded measure `ownerMeas`: a lifecycle takes finitely many steps. -/
+theorem c06_owner_steps_decrease (c : Cfg) (s s' : SState) (a : SAct) (outs : List Out) (hr : Reach c s)
+    (ha : a.isOwnerStep = true) (hs : sstep c .current s a = some (s', outs)) :
+    s'.active = none ∨ lt2 (ownerMeas s') (ownerMeas s) := by
+  have hinv := hr.inv
+  cases a with
+  | deliver t q =>
+    cases t with
+    | bk id => simp [SAct.isOwnerStep] at ha
+    | owner =>
+      have hs0 := hs
+      simp only [sstep, stepDeliverOwner] at hs
+      cases hact : s.active with
+      | none => rw [hact] at hs; simp at hs
+      | some p =>
+        obtain ⟨e, o⟩ := p
+        rw [hact] at hs
+        simp only at hs
+        split at hs
+        · rename_i hout
+          cases hl : lookupS o.served q with
+          | none => rw [hl] at hs; simp at hs
+          | some r =>
+            rw [hl] at hs
+            simp only [Option.some.injEq] at hs
+            have hmem : (q, r) ∈ o.served := by
+              unfold lookupS at hl
+              cases hf : o.served.find? (fun x => x.1 == q) with
+              | none => rw [hf] at hl; simp at hl
+              | some x =>
+                rw [hf] at hl; simp at hl
+                have h1 := List.find?_some hf
+                have h2 := List.mem_of_find?_eq_some hf
+                simp at h1; subst h1; subst hl; exact h2
+            have hfact := ((hinv.owner e o hact).2 (q, r) hmem).2
+            have hq : q ∈ o.pc.outstanding .current := by simpa using hout
+            have hm := ownerCont_meas c .current s o.pc q r hq (ofact_matches hfact)
+            cases hn : ownerCont c .current s o.pc q r with
+            | stay pc' =>
+              rw [hn] at hs; simp only [applyONext, Prod.mk.injEq] at hs; rw [← hs.1]
+              right; simp only [ownerMeas, hact]; exact hm.1 pc' hn
+            | pay pc' mf md =>
+              rw [hn] at hs; simp only [applyONext, Prod.mk.injEq] at hs; rw [← hs.1]
+              right; simp only [ownerMeas, hact]; exact hm.2 pc' mf md hn
+            | finish r' => rw [hn] at hs; simp only [applyONext, Prod.mk.injEq] at hs; rw [← hs.1]; left; rfl
+            | finishBk r' b => rw [hn] at hs; simp only [applyONext, Prod.mk.injEq] at hs; rw [← hs.1]; left; rfl
+            | panic =>
+              exfalso
+              rw [hn] at hs; simp only [applyONext, Prod.mk.injEq] at hs
+              have hp : s'.panicked = true := by rw [← hs.1]
+              have hr' : Reach c s' := hr.extend [.deliver .owner q] (by intro x hx; simp at hx; subst hx; trivial)
+                (by simp [srun, hs0])
+              have := c06_no_panic c s' hr'
+              rw [hp] at this; simp at this
+        · simp at hs
+  | timerFire =>
+    simp only [sstep] at hs
+    repeat' split at hs
+    all_goals first
+      | (simp only [Option.some.injEq, Prod.mk.injEq] at hs; rw [← hs.1]; left; rfl)
+      | simp at hs
+  | takeFail =>
+    simp only [sstep] at hs
+    repeat' split at hs
+    all_goals first
+      | (simp only [Option.some.injEq, Prod.mk.injEq] at hs; rw [← hs.1]; left; rfl)
+      | simp at hs
+  | takeReady =>
+    simp only [sstep] at hs
+    cases hact : s.active with
+    | none => rw [hact] at hs; simp at hs
+    | some p =>
+      obtain ⟨e, o⟩ := p
+      rw [hact] at hs
+      simp only at hs
+      repeat' split at hs
+      all_goals first
+        | (simp only [Option.some.injEq, Prod.mk.injEq] at hs; rw [← hs.1]; right
+           rename_i hpc _; simp [ownerMeas, hact, hpc, OPc.meas, lt2])
+        | simp at hs
+  | readParams =>
+    simp only [sstep] at hs
+    cases hact : s.active with
+    | none => rw [hact] at hs; simp at hs
+    | some p =>
+      obtain ⟨e, o⟩ := p
+      rw [hact] at hs
+      simp only at hs
+      repeat' split at hs
+      all_goals first
+        | (simp only [Option.some.injEq, Prod.mk.injEq] at hs; rw [← hs.1]; right
+           rename_i hpc; simp [ownerMeas, hact, hpc, OPc.meas, lt2])
+        | simp at hs
+  | readHeight =>
+    simp only [sstep] at hs
+    cases hact : s.active with
+    | none => rw [hact] at hs; simp at hs
+    | some p =>
+      obtain ⟨e, o⟩ := p
+      rw [hact] at hs
+      simp only at hs
+      repeat' split at hs
+      all_goals first
+        | (simp only [Option.some.injEq, Prod.mk.injEq] at hs; rw [← hs.1]; right
+           rename_i hpc; simp [ownerMeas, hact, hpc, OPc.meas, lt2])
+        | simp at hs
+  | arrive _ _ _ _ _ => simp [SAct.isOwnerStep] at ha
+  | tickMono _ => simp [SAct.isOwnerStep] at ha
+  | tickWall _ => simp [SAct.isOwnerStep] at ha
+  | block _ => simp [SAct.isOwnerStep] at ha
+  | crash => simp [SAct.isOwnerStep] at ha
+  | create _ => simp [SAct.isOwnerStep] at ha
+  | resolve _ _ => simp [SAct.isOwnerStep] at ha
+  | payEnd _ => simp [SAct.isOwnerStep] at ha
+  | serve _ _ => simp [SAct.isOwnerStep] at ha
+  | fault _ _ _ => simp [SAct.isOwnerStep] at ha
+
+/-- the measure is well-founded: there is no infinite descending chain of owner steps -/
+theorem c06_measure_wf : WellFounded (fun s' s : SState => lt2 (ownerMeas s') (ownerMeas s)) :=
+  InvImage.wf ownerMeas lt2_wf
 
 /-- Pinned tree: adding up the amounts of two HTLCs overflows and panics (defect fixed by F7). -/
 theorem c06_pinned_overflow_panics :
